@@ -984,6 +984,10 @@ class C12(RunSpec):
         if idx % 10 == 4:
             p["fam"] = "tinyval"
             p["root"] = _cycle(SEA_FAMILY, idx // 10)
+        if idx % 10 == 9:
+            # the sampling demes are population-based too: every generation has the configured size, whatever the size (Sobol' with a
+            # size that is not a power of two, LHS with any)
+            p.update({"root": _cycle(["sobol", "lhs"], idx // 10), "leaf": _cycle(["sobol", "lhs", "sea", "de"], idx // 10, 2), "levels": [1, 2, 2], "sampler_sizes": True})
         if idx % 10 == 7:
             # boundary sizes of the elitist selection: a population of one individual with (explicit) k_elites = 1, and k_elites = pop_size
             p.update({"root": _cycle(SEA_FAMILY, idx // 10), "leaf": _cycle(SEA_FAMILY, idx // 10, 2), "levels": [1, 2], "fams": ["rastrigin", "sphere", "funnel", "plateau"], "elite_boundary": True})
@@ -997,6 +1001,10 @@ class C12(RunSpec):
                 lv["gens"] = rng.randint(2, 4)
             if "pop" in lv and rng.random() < 0.5 and lv["engine"] not in ("mwea", "shade"):
                 lv["pop"] = rng.choice([4, 5, 7, 9])
+        if idx % 10 == 9 and d.get("kind") == "tree":
+            for lv in d["levels"]:
+                if lv["engine"] in ("sobol", "lhs"):
+                    lv["pop"] = rng.choice([5, 6, 10, 12, 20, 24, 48, 9, 33])
         if idx % 10 == 7 and d.get("kind") == "tree":
             lv = d["levels"][-1]
             if lv["engine"] in SEA_FAMILY:
@@ -1012,6 +1020,8 @@ class C12(RunSpec):
 
     def floors(self, tier):
         fl = [("objective.tinyval", 5, "objective with values of the order 1e-12")]
+        fl.append(("C12.generations_of_a_sobol_deme_whose_size_is_not_a_power_of_two", 5, "generations of a Sobol' deme with a size that is not a power of two"))
+        fl.append(("C12.generations_of_an_lhs_deme", 5, "generations of an LHS deme"))
         for dr in ("min", "max"):
             fl.append((f"C12.pairs_of_a_single_individual_population.{dr}", 5, "generation pairs of an elitist SEA population of one individual"))
             fl.append((f"C12.pairs_with_every_parent_an_elite.{dr}", 5, "generation pairs with k_elites >= population size"))
